@@ -102,6 +102,28 @@ Theorem C09_legacy_no_server_not_found : forall servers root method url lit know
   servers <> [] -> (forall s, In s servers -> forall ps rest, match_raw_url s url <> MYes ps rest) ->
   legacy_find_srv servers root method url lit known = (RNotFound, None).
 Proof. exact legacy_find_srv_no_server. Qed.
+(* ... and, the other way round: every URL made of a declared server's pattern filled with values the
+   matcher finds again (C09_server_match_complete), followed by a path whose text reaches a valued node
+   of the trie, is routed to that node's route under that server - when no server declared earlier
+   matches the URL (Servers.MatchURL returns the first match) *)
+Theorem C09_legacy_server_routing_complete :
+  forall servers root method lit known i s names vals consumed rest0 n vals' r,
+  nth_error servers i = Some s ->
+  fills s names vals consumed -> findable s vals -> (rest0 = ""%string \/ String.prefix "/" rest0 = true) ->
+  (forall j s', j < i -> nth_error servers j = Some s' -> forall ps' rest', match_raw_url s' (consumed ++ rest0) <> MYes ps' rest') ->
+  tmatch root (strip_trailing_slashes (method ++ " " ++ slashify rest0)) [] = Some (n, vals') -> t_value n = Some r ->
+  legacy_find_srv servers root method (consumed ++ rest0) lit known = (RFound r (zip_params (t_names n) vals'), Some i).
+Proof. exact legacy_find_srv_complete. Qed.
+Print Assumptions C09_legacy_server_routing_complete.
+Example C09_legacy_server_routing_complete_example :
+  match tokens_of "GET /a/{id}" with
+  | Some (toks, names) =>
+      legacy_find_srv ["https://old.example/v0"; "https://{host}.example/v1/"] (tinsert toks names 7 (T [] None []))
+                      "GET" "https://api.example/v1/a/42" (fun _ => None) false
+      = (RFound 7 [("id", "42")], Some 1)
+  | None => False
+  end.
+Proof. vm_compute. reflexivity. Qed.
 (* the two boolean functions the judge evaluates on the Go observations mean what the theorems above
    speak of: [reproduces] implies the decomposition of C09_server_match_sound, [under_server] holds
    exactly for the URLs that are the pattern filled with non-empty slash-free values and a path *)
